@@ -266,7 +266,8 @@ func genOidcJSON(r *Run, full bool, wild bool) J {
 		}
 	}
 	if rng.Intn(2) == 0 {
-		o["scopes"] = pick(rng, [][]string{{}, {"profile", "email"}, {"openid"}, {"openid", "profile"}, {"profile", "openid", "openid"}})
+		o["scopes"] = pick(rng, [][]string{{}, {"profile", "email"}, {"openid"}, {"openid", "profile"}, {"profile", "openid", "openid"},
+			{"openid_connect"}, {"xopenid", "profile"}, {"https://idp.example.com/openid.profile"}, {"OpenID"}, {"open", "id"}, {" openid"}, {"openid "}})
 	}
 	if full || rng.Intn(2) == 0 {
 		if !odd() {
@@ -457,7 +458,8 @@ func directedOverrideDocs() []any {
 		{"callback_uri": "https://app/session?x=1"}, {"callback_uri": "https://other/session/"}, {"callback_uri": "https://app/"}, {"callback_uri": "https://app"},
 		{"callback_uri": "%gh"}, {"logout": J{"path": "/"}}, {"logout": J{"path": ""}}, {"logout": J{}}, {"client_id": "a:b"}, {"client_id": ""},
 		{"id_token": J{"header": ""}}, {"id_token": J{"preamble": "Token"}}, {"access_token": J{"header": ""}}, {"access_token": J{"header": "x-at"}},
-		{"scopes": []string{}}, {"scopes": []string{"email"}}, {"scopes": []string{"openid"}}, {"authorization_uri": ""}, {"authorization_uri": "://bad"},
+		{"scopes": []string{}}, {"scopes": []string{"email"}}, {"scopes": []string{"openid"}}, {"scopes": []string{"openid_connect"}}, {"scopes": []string{"myopenid", "email"}},
+		{"scopes": []string{"OPENID"}}, {"scopes": []string{"https://idp/openid.read"}}, {"authorization_uri": ""}, {"authorization_uri": "://bad"},
 		{"token_uri": "%zz"}, {"configuration_uri": "https://idp/.well-known/openid-configuration"}, {"jwks": ""}, {"jwks_fetcher": J{"jwks_uri": ""}},
 		{"jwks_fetcher": J{"jwks_uri": "https://idp/jwks"}}, {"client_secret": ""}, {"client_secret_ref": J{"name": "s"}}, {"client_secret_ref": J{"name": ""}},
 		{"cookie_name_prefix": "a b"}, {"cookie_name_prefix": "ok"}, {"redis_session_store_config": J{"server_uri": ""}}, {"proxy_uri": "%zz"},
